@@ -131,6 +131,12 @@ pub fn judge(c: &Case, tmp_dir: &str) -> Result<(bool, &'static str), (String, S
     let t0 = clock::new_case_epoch() + c.phase_ms;
     let ent = entity(c);
     let accepted_by_check = ent.check().is_ok();
+    let before = (
+        config::global_stat_sample_count_total(),
+        config::global_stat_interval_ms_total(),
+        config::metric_stat_sample_count(),
+        config::metric_stat_interval_ms(),
+    );
     let r = if c.yaml {
         let text = serde_yaml::to_string(&ent).map_err(|e| ("yaml-serialize".to_string(), e.to_string()))?;
         let path = format!("{}/c17-{}-{}.yaml", tmp_dir, std::process::id(), util::fresh_name("cfg"));
@@ -152,7 +158,30 @@ pub fn judge(c: &Case, tmp_dir: &str) -> Result<(bool, &'static str), (String, S
         return Err(("servable-configuration-refused".into(), format!("{:?} refused: {:?}", c, r.err().map(|e| e.to_string()))));
     }
     if !accepted {
-        // restore a usable configuration for whatever runs next in this process
+        // a rejected configuration must not be in effect: the getters still answer what they answered
+        // before, on this thread and on another one, and a fresh resource still works
+        let after = (
+            config::global_stat_sample_count_total(),
+            config::global_stat_interval_ms_total(),
+            config::metric_stat_sample_count(),
+            config::metric_stat_interval_ms(),
+        );
+        let there = std::thread::spawn(|| {
+            (
+                config::global_stat_sample_count_total(),
+                config::global_stat_interval_ms_total(),
+                config::metric_stat_sample_count(),
+                config::metric_stat_interval_ms(),
+            )
+        })
+        .join()
+        .map_err(|_| ("panic-on-other-thread".to_string(), "reading the configuration panicked".to_string()))?;
+        if after != before || there != before {
+            return Err(("rejected-configuration-in-effect".into(), format!("{:?} was rejected, yet the configuration in effect changed from {:?} to {:?} (other thread: {:?})", c, before, after, there)));
+        }
+        let name = util::fresh_name("c17r");
+        let e = build(Req::new(&name, 1)).map_err(|m| ("entry-blocked-after-rejected-configuration".to_string(), m))?;
+        e.exit();
         return Ok((false, "refused"));
     }
     let want = (c.sample_count_total, c.interval_ms_total, c.sample_count, c.interval_ms);
@@ -207,7 +236,7 @@ impl Property for C17 {
         vec![("parse_yaml", 1_000_000, 600)]
     }
     fn rule(&self) -> String {
-        "grid {20,0,1,2,3,7,10} x {10000,0,1,999,1000,3000,10001} x {2,0,1,3,4} x {1000,0,1,500,1500,2000,10000} of (sample_count_total, interval_ms_total, sample_count, interval_ms): all 1715 points enumerated exhaustively as ConfigEntity (coverage.extra) and generated points given as entity or as YAML text through init_with_config_file, with a generated bucket phase; collectors, ticker and metric log disabled; oracle: accepted <=> check() accepts; must-refuse (global window cannot exist, or the default window does not tile it) / must-accept (canonical tiling) predicates from the statement; after acceptance a resource first touched on the initialising thread and one first touched on another thread both work (entry, exit) and show the configured geometry (config getters, node geometry accessor, and window behaviour under the virtual clock: a pass at +0 is visible in the default metric until its bucket leaves interval_ms and in a full-ring read stat until interval_ms_total); non-trivial = accepted non-default geometry, or a refused point; distinct = distinct decoded cases".into()
+        "grid {20,0,1,2,3,7,10} x {10000,0,1,999,1000,3000,10001} x {2,0,1,3,4} x {1000,0,1,500,1500,2000,10000} of (sample_count_total, interval_ms_total, sample_count, interval_ms): all 1715 points enumerated exhaustively as ConfigEntity (coverage.extra) and generated points given as entity or as YAML text through init_with_config_file, with a generated bucket phase; collectors, ticker and metric log disabled; oracle: accepted <=> check() accepts; must-refuse (global window cannot exist, or the default window does not tile it) / must-accept (canonical tiling) predicates from the statement; a rejected configuration leaves the configuration in effect unchanged (this thread and another) and entries still work; after acceptance a resource first touched on the initialising thread and one first touched on another thread both work (entry, exit) and show the configured geometry (config getters, node geometry accessor, and window behaviour under the virtual clock: a pass at +0 is visible in the default metric until its bucket leaves interval_ms and in a full-ring read stat until interval_ms_total); non-trivial = accepted non-default geometry, or a refused point; distinct = distinct decoded cases".into()
     }
     fn assumptions(&self) -> Vec<String> {
         vec![
